@@ -13,6 +13,7 @@ import sys
 
 FIXES = {  # subject prefix -> properties whose check must fire when the fix is reverted
     "fix: config.set records": ["C17"],
+    "fix: eye builds its blocks": ["C34"],
     "fix: read_text keeps the last line": ["C50"],
     "fix: delayed optimize flattens": ["C09"],
     "fix: blockwise(align_arrays=False)": ["C25"],
